@@ -611,6 +611,7 @@ theorem generated_routers_paired (d : Desc) (hpos : PosArrays d) (hv : validateD
   unfold compileNetwork at hc
   obtain ⟨ids, _, hc⟩ := bind_ok hc
   obtain ⟨dirs, _, hc⟩ := bind_ok hc
+  obtain ⟨_, _, hc⟩ := bind_ok hc
   obtain ⟨nis, _, hc⟩ := bind_ok hc
   obtain ⟨rs, hrs, hc⟩ := bind_ok hc
   have := pure_ok hc
